@@ -282,4 +282,42 @@ theorem bracket_and_escape_examples :
   refine ⟨?_, ?_, ?_, ?_, ?_, ?_, ?_, ?_, ?_, ?_, ?_, ?_, ?_, ?_, ?_, ?_⟩ <;>
     simp [fnm, closeIdx, firstClose, classMatch, classItems]
 
+/-! ### brace alternatives (`GLOB_BRACE`) -/
+
+theorem firstBrace_none_of_no_brace : ∀ (s pre : Str), '{' ∉ s → firstBrace pre s = none
+  | [], _, _ => rfl
+  | c :: cs, pre, h => by
+    have hc : c ≠ '{' := fun e => h (e ▸ List.mem_cons_self ..)
+    have ht : '{' ∉ cs := fun m => h (List.mem_cons_of_mem _ m)
+    unfold firstBrace
+    split
+    · rfl
+    · rename_i heq; simp only [List.cons.injEq] at heq; exact absurd heq.1 hc
+    · rename_i heq; simp only [List.cons.injEq] at heq
+      obtain ⟨rfl, rfl⟩ := heq
+      exact firstBrace_none_of_no_brace _ _ ht
+
+/-- a pattern without `{` has itself as its only expansion -/
+theorem braceExpand_no_brace (n : Nat) (s : Str) (h : '{' ∉ s) : braceExpand n s = [s] := by
+  cases n with
+  | zero => rfl
+  | succ n => simp only [braceExpand, firstBrace_none_of_no_brace s [] h]
+
+/-- **Without braces nothing changes**: `resolveB` is the component-wise walk `resolve` (whose exactness is
+`resolve_exact` above) for every pattern whose text contains no `{`. -/
+theorem resolveB_no_brace (t : Tree) (fsAt : List Str) (p : CgPath) (hw : WFParts p.parts)
+    (h : '{' ∉ joinSlash p.parts) : resolveB t fsAt p = resolve t fsAt p := by
+  unfold resolveB
+  simp only [braceExpand_no_brace _ _ h, List.flatMap_cons, List.flatMap_nil, List.append_nil, split_joinSlash p.parts hw]
+
+/-- concrete readings: alternatives, an empty alternative, nesting, a single alternative, `{}`, an unmatched `{`, an
+alternative that contains a slash -/
+theorem brace_examples :
+    braceExpand 3 "{a,b}c".toList = ["ac".toList, "bc".toList] ∧
+    braceExpand 3 "ba{,ab}/x".toList = ["ba/x".toList, "baab/x".toList] ∧
+    braceExpand 3 "{zz,{aa,b}}/*".toList = ["zz/*".toList, "aa/*".toList, "b/*".toList] ∧
+    braceExpand 3 "{a}".toList = ["a".toList] ∧ braceExpand 3 "w{}".toList = ["w".toList] ∧
+    braceExpand 3 "{a,b".toList = ["{a,b".toList] ∧
+    braceExpand 3 "{a/b,c}/d".toList = ["a/b/d".toList, "c/d".toList] := by decide
+
 end C16
